@@ -39,6 +39,7 @@ DIR_ANNS = ['out', 'inout', 'out caller-allocates', 'out callee-allocates', 'in'
 DEPTH2_QUICK = ['char', 'gchar', 'unsigned char', 'int', 'guint8', 'gsize', 'void', 'gpointer', 'gconstpointer',
                 'FooRec', 'FooEn', 'FooCb', 'GList', 'GObject', 'GError', 'XUnknown', 'long int', 'uint32_t',
                 'gboolean', 'FooInt']
+DEPTH3 = ['char', 'gchar', 'void', 'gpointer', 'int', 'guchar']
 VFUNC_QUICK = ['int', 'char', 'gpointer', 'gconstpointer', 'void', 'FooRec', 'FooCb', 'GList', 'guint8']
 DIR_BASES = ['int', 'char', 'gchar', 'guint8', 'double', 'gboolean', 'FooRec', 'FooOpq', 'FooUni', 'FooEn', 'FooCb',
              'FooInt', 'gpointer', 'void', 'GList', 'GHashTable', 'GByteArray', 'GObject', 'GValue', 'GVariant',
@@ -56,6 +57,10 @@ PRELUDE = {
     'FooCb': lambda: [Callback('FooCb', 'void', [('int', 'x'), ('gpointer', 'user_data')])],
     'FooInt': lambda: [Typedef('FooInt', 'int')],
     'FooStr': lambda: [Typedef('FooStr', 'char *')],
+    'FooName': lambda: [Typedef('FooName', M.CONSTPTR_TARGETS['FooName'])],
+    'FooGName': lambda: [Typedef('FooGName', M.CONSTPTR_TARGETS['FooGName'])],
+    'FooConstRec': lambda: [Typedef('FooConstRec', M.CONSTPTR_TARGETS['FooConstRec'])],
+    'FooBytes': lambda: [Typedef('FooBytes', M.CONSTPTR_TARGETS['FooBytes'])],
     # local typedefs of the role types used by the arrangement space (declared after their targets)
     'FooCbAlias': lambda: [Typedef('FooCbAlias', 'FooCb')],
     'FooReadyCb': lambda: [Typedef('FooReadyCb', 'GAsyncReadyCallback')],
@@ -84,6 +89,8 @@ def case_needs(case):
         base = case['sp']['base']
         if base in M.LOCAL:
             names.add(base)
+            if base == 'FooConstRec':
+                names.add('FooRec')
         full = base in M.FOREIGN
         if case.get('pos') in ('mparam', 'mret') or case.get('host') == 'method':
             names.add('FooRec')
@@ -123,6 +130,17 @@ def spellings(tier):
                 if tier == 'thorough' or base in DEPTH2_QUICK:
                     for p1 in (False, True):
                         out.append(Sp(base, bq, (p0, p1)))
+        # pointer depth 3 (char ***argvp idiom): the spellings whose mapping is keyed on a
+        # pointer level (char, gchar, void, gpointer) and two controls
+        if base in DEPTH3:
+            for bq in (False, True):
+                out.append(Sp(base, bq, (False, False, False)))
+                if tier == 'thorough':
+                    for ptr in itertools.product((False, True), repeat=3):
+                        if any(ptr):
+                            out.append(Sp(base, bq, ptr))
+                else:
+                    out.append(Sp(base, bq, (True, True, False)))
     return out
 
 
@@ -140,6 +158,8 @@ def positions_for(sp, tier):
         pos += ['mparam', 'mret', 'vparam', 'vret', 'ufield', 'param2']
     elif sp.base in VFUNC_QUICK and d <= 1:
         pos += ['vparam', 'vret']
+    elif kind == 'alias-constptr' and d == 0:
+        pos += ['mparam', 'mret', 'vparam', 'vret']
     if d == 0 and kind in ('int', 'enum', 'flags', 'alias-int'):
         pos.append('fbits')
         if not sp.bq:
@@ -663,7 +683,7 @@ def run(ctx):
                  'scope, throws, parameter list, bits, fixed-size) is compared with the three-valued reference model; '
                  'non-trivial = case with at least one MUST/MUST-NOT observable',
             bounds={'tier': ctx.tier, 'base_spellings': len(all_bases()), 'spellings': nsp,
-                    'pointer_depth': 2, 'depth2_bases': 'all' if ctx.tier == 'thorough' else DEPTH2_QUICK,
+                    'pointer_depth': 2, 'pointer_depth3_bases': DEPTH3, 'depth2_bases': 'all' if ctx.tier == 'thorough' else DEPTH2_QUICK,
                     'type_cases': len(type_cases(ctx.tier)), 'dir_cases': len(dir_cases(ctx.tier)),
                     'arrangement_max_params': 5 if ctx.tier == 'thorough' else 4,
                     'arrangement_cases': len(arr_cases(ctx.tier)), 'user_data_names': UNAMES,
